@@ -7,7 +7,7 @@
    All statements are for ALL sizes n, k, c, numbers of factors / blocks / repeats. *)
 From mathcomp Require Import all_ssreflect all_algebra.
 Require Import C04.Model C04.ProofsBridge C04.ProofsTri C04.ProofsChol C04.ProofsStruct C04.ProofsKron
-               C04.ProofsEig C04.ProofsBlock C04.ProofsAlg C04.ProofsCholFactor C04.ProofsSound C04.ProofsSelect C04.ProofsKronTri C04.ProofsEigKron.
+               C04.ProofsEig C04.ProofsBlock C04.ProofsAlg C04.ProofsCholFactor C04.ProofsSound C04.ProofsSelect C04.ProofsKronTri C04.ProofsEigKron C04.ProofsJitter.
 Set Implicit Arguments.
 Unset Strict Implicit.
 Unset Printing Implicit Defensive.
@@ -129,6 +129,20 @@ Theorem C04_method_independent_left n c o (A : 'M[F]_n) (L : 'M[F]_(o, n)) (B X1
   L *m X1 = L *m invmx A *m B /\ L *m X2 = L *m invmx A *m B.
 Proof. exact: method_independent_left. Qed.
 
+(* psd_safe_cholesky factorises a whole batch in one call and, when a member fails, retries with jitter "only where
+   needed".  For ANY batch (any number of members, any sizes, any jitter 10^-e, any max_tries): if the batch call
+   returns factors, member m's factor is exactly the one psd_safe_cholesky returns for that member alone - the result
+   for a positive-definite matrix does not depend on which other matrices share its batch. *)
+Theorem C04_psd_safe_batch_member jexp tries n (Ms : seq (mat F)) (Ls : seq (mat F)) m :
+  psd_safe_batch FA jexp tries n Ms = Some Ls -> (m < size Ms)%N ->
+  psd_safe_chol FA jexp tries n (nth [::] Ms m) = Some (nth [::] Ls m).
+Proof. exact: psd_safe_batch_member. Qed.
+
+(* ... and a matrix whose plain factorisation succeeds is returned without jitter, for every setting of the ladder *)
+Theorem C04_psd_safe_nojitter jexp tries n (M L : mat F) :
+  chol FA n M = (L, 0%N) -> psd_safe_chol FA jexp tries n M = Some L.
+Proof. exact: psd_safe_nojitter. Qed.
+
 End Statements.
 
 (* BatchRepeat: folding the repeats into columns, solving once with the base (any column-wise solver f)
@@ -156,6 +170,16 @@ Theorem C04_chol_factor_correct n (M L : mat F) : chol RA n M = (L, 0%N) -> symm
   [/\ lower_tri (@rsq F) (@rlt F) n L, diag_nz (@rsq F) (@rlt F) n L
     & mx_of (@rsq F) (@rlt F) n n L *m (mx_of (@rsq F) (@rlt F) n n L)^T = mx_of (@rsq F) (@rlt F) n n M].
 Proof. exact: chol_factor_correct. Qed.
+
+(* whatever psd_safe_cholesky returns for a symmetric M is the Cholesky factor of M + sigma I, where sigma = 0 or a rung
+   jitter * 10^j (j < max_tries) of the ladder, jitter = 10^-e *)
+Theorem C04_psd_safe_chol_correct jexp tries n (M L : mat F) :
+  psd_safe_chol RA jexp tries n M = Some L -> symmetric n M ->
+  exists sigma, [/\ sigma = 0 \/ exists2 j, (j < tries)%N & sigma = 1 / apow10 RA jexp * apow10 RA j,
+                    lower_tri (@rsq F) (@rlt F) n L, diag_nz (@rsq F) (@rlt F) n L
+                  & mx_of (@rsq F) (@rlt F) n n L *m (mx_of (@rsq F) (@rlt F) n n L)^T
+                    = mx_of (@rsq F) (@rlt F) n n M + sigma%:M].
+Proof. exact: psd_safe_chol_correct. Qed.
 
 (* THE ALGORITHM, leaf classes (Dense-like, AddedDiag, Diag, Identity, Chol, Triangular over a dense tensor,
    LowRankRootAddedDiag): for EVERY settings record, whatever method select_solve picks, a value returned by
@@ -209,7 +233,9 @@ Example C04_wf_leaf_sat :
   wf_leaf (DTriDense true 2 [:: [:: 1; 1]; [:: 0; 1 : F]]).
 Proof.
 split; first by move=> [|[|i]] //= _; rewrite /Model.vget /= oner_neq0.
-split; first by split=> // -[|[|i]] [|[|j]].
+split.
+  split=> [[|[|i]] [|[|j]]|//|_] //.
+  by rewrite /chol /= /Model.vget /= /rlt /rsq !(subr0, mulr0, mul0r, add0r, addr0, sqrtr1, divr1, ltr01, mulr1).
 split; first by move=> [|[|i]] [|[|j]].
 by move=> [|[|i]] //= _; rewrite /Model.get /= oner_neq0.
 Qed.
@@ -234,7 +260,7 @@ Proof. exact: select_cg_only_when. Qed.
 
 (* the threshold is observable (non-vacuity): just above it the generic class switches to CG *)
 Example C04_select_threshold :
-  let s := MkSettings 5 true 1000 15 2000 false false in
+  let s := MkSettings 5 true 1000 15 2000 false false 8 3 in
   select_solve s (CGeneric 5) = MCholesky (PDense 5) /\ select_solve s (CGeneric 6) = MCG false 0.
 Proof. by []. Qed.
 
